@@ -96,6 +96,8 @@ def context_features(w, v):
     elif v.key.startswith("TIME_BACKWARDS:late=") and "Variable" in v.key:
         if tracegen.has(opts, "tracing/uncategorized") or tracegen.has(opts, "tracing/categorized"):
             f.append("utilization")
+        if "\nvmcreate " in text and v.event == "PajeSetVariable":
+            f.append("vm-created-late")
     return (":ctx=" + "+".join(f)) if f else ""
 
 
